@@ -113,6 +113,11 @@ class PullSetupOpsOutOfLoops(RewritePattern):
         if op.in_state is None or op.in_state.owner != loop_op.body.block:
             return
 
+        # the hoisted values take effect before the first iteration: nothing else in the body (like a launch
+        # in front of this setup) may still use the configuration the iteration was entered with
+        if any(use.operation is not op for use in op.in_state.uses):
+            return
+
         # iterate over all setups inside this loop and check if their values are loop-invariant or not
         # loop invariant values
         safe_values: set[str] = set()
